@@ -324,7 +324,14 @@ pub fn run(base: Instant, c: &Case, dump: bool) -> Out {
                 } else if acted && workload_done(&p) && final_remote != Some(target) && c.dev.map_or(true, |d| d.0 >= 1000)
                     // (the premise "the client keeps sending from there": without the ping of the other
                     // workloads a download that was all but complete may leave the client silent)
-                    && p.w.recs.iter().any(|r| matches!(r, Rec::Deliver { node, src, routed: Routed::Conn(_), .. } if *node == SERVER && *src == target))
+                    // (... with something other than probing frames - PATH_CHALLENGE, PATH_RESPONSE,
+                    // NEW_CONNECTION_ID, PADDING -, which alone never move a path, RFC 9000 9.1)
+                    && p.w.recs.iter().any(|r| match r {
+                        Rec::Deliver { node, idx, src, routed: Routed::Conn(_), .. } if *node == SERVER && *src == target => emitted.get(idx).map_or(false, |(_, data, _)| {
+                            decode(data, p.w.nodes[SERVER].cid_len).iter().any(|(_, fr)| fr.iter().any(|f| !matches!(f, WFrame::PathChallenge(_) | WFrame::PathResponse(_) | WFrame::NewConnectionId { .. } | WFrame::Padding(_))))
+                        }),
+                        _ => false,
+                    })
                 {
                     viol.push(("new-path-never-validated".into(), format!("the client kept sending from {target} but no PATH_RESPONSE echoing a challenge sent there was delivered; server remote {final_remote:?}")));
                 } else if acted && matches!(c.kind, Kind::Rebind { .. }) && challenges.get(&target).map_or(false, |v| !v.is_empty()) {
